@@ -1,9 +1,9 @@
 --------------------------- MODULE MC_OmegaSource ---------------------------
 EXTENDS OmegaSource, Json
-St      == [src |-> src,  dom |-> dom,  rank |-> rank,  stage |-> stage,  mutated |-> mutated]
-StPrime == [src |-> src', dom |-> dom', rank |-> rank', stage |-> stage', mutated |-> mutated']
+St      == [src |-> src,  dom |-> dom,  rank |-> rank,  stage |-> stage,  mutated |-> mutated, regridded |-> regridded]
+StPrime == [src |-> src', dom |-> dom', rank |-> rank', stage |-> stage', mutated |-> mutated', regridded |-> regridded']
 MCInit == Init /\ PrintT(<<"INIT", ToJson(St)>>)
-View   == <<src, dom, rank, stage, mutated>>
+View   == <<src, dom, rank, stage, mutated, regridded>>
 Edge   == PrintT(<<"EDGE", ToJson([from |-> St, to |-> StPrime, l |-> last'])>>)
 NoEdge == TRUE
 =============================================================================
